@@ -54,6 +54,18 @@ def run(ck, rng, tier):
         rk = int(np.linalg.matrix_rank(E0, tol=1e-9 * max(1.0, np.abs(E0).max()))) if np.abs(E0).max() > 0 else 0
         lines.append("pca %s %s %d %d 1" % (vf.fmt_mat(X.tolist(), m), vf.fmt_mat([X[0].tolist()], m), scaling, npc))
         meta.append((X, scaling, npc, rk, kind))
+    # full column rank, exactly cancelling (disjoint supports, zero column sums), more components
+    # requested than columns: the request must be cut down to the rank
+    for c in range(6 if not thorough else 40):
+        m = rng.randint(1, 3)
+        n = 2 * m + rng.randint(0, 3)
+        mags = rng.sample(range(1, 9), m)
+        X = np.zeros((n, m))
+        for j in range(m):
+            X[2 * j, j], X[2 * j + 1, j] = mags[j], -mags[j]
+        scaling, npc = rng.choice((-1, 0)), m + rng.randint(1, 2)
+        lines.append("pca %s %s %d %d 1" % (vf.fmt_mat(X.tolist(), m), vf.fmt_mat([X[0].tolist()], m), scaling, npc))
+        meta.append((X, scaling, npc, m, "overrequest_full_rank"))
     rc, outs, err = vf.run_driver(epca, ("cap %d\n" % CAP) + "\n".join(lines) + "\n", timeout=600)
     if rc != 0 or len(outs) != len(meta):
         ck.broken("driver drv_pca", "rc=%s cases=%d/%d %s" % (rc, len(outs), len(meta), err[-500:]))
@@ -69,7 +81,10 @@ def run(ck, rng, tier):
                 checks.add(("pca", i), "fuel", "%s (pca_fuel %d%%N (%d)%%Z %d%%N %s)" % ("" if nonterm else "negb", CAP, scaling, npc, cm(X.tolist())))
             if nonterm:
                 within = min(npc, m) <= rk
-                ck.fail("PCA", "nontermination_within_rank" if within else "nontermination_beyond_rank",
+                E0 = c02.preprocess(X, scaling)
+                j0 = int(np.argmax(E0.var(axis=0, ddof=1))) if E0.shape[0] > 1 else 0
+                null_start = within and np.abs(E0).max() > 0 and np.abs(E0[:, j0]).max() == 0
+                ck.fail("PCA", "nontermination_null_start_column" if null_start else ("nontermination_within_rank" if within else "nontermination_beyond_rank"),
                         "PCA does not return (more than %d inner iterations) on a %dx%d matrix of rank %d after preprocessing with %d components requested" % (CAP, X.shape[0], m, rk, npc),
                         {"X": X.tolist(), "scaling": scaling, "npc": npc})
             else:
@@ -134,6 +149,23 @@ def run(ck, rng, tier):
         npc = 1 if kind != "beyond_rank" else min(widths)
         lines.append("cpca %s 0 %d 1" % (vf.fmt_tensor([b.tolist() for b in blocks]), npc))
         meta.append((blocks, npc, kind))
+    # blocks whose variables have disjoint supports (exact deflation): several components within the rank
+    for c in range(5 if not thorough else 30):
+        nb = rng.randint(2, 3)
+        pairs = rng.randint(3, 4)
+        n = 2 * pairs
+        blocks = []
+        for b in range(nb):
+            B = np.zeros((n, 2))
+            rows = rng.sample(range(pairs), 2)
+            for j in range(2):
+                a = rng.randint(1, 6)
+                B[2 * rows[j], j], B[2 * rows[j] + 1, j] = a, -a
+            blocks.append(B)
+        Ec_ = np.hstack(blocks)
+        rk_ = int(np.linalg.matrix_rank(Ec_))
+        lines.append("cpca %s 0 %d 1" % (vf.fmt_tensor([b.tolist() for b in blocks]), min(2, rk_)))
+        meta.append((blocks, min(2, rk_), "disjoint_supports"))
     rc, outs, err = vf.run_driver(ecpca, ("cap %d\n" % CAP) + "\n".join(lines) + "\n", timeout=600)
     if rc != 0 or len(outs) != len(meta):
         ck.broken("driver drv_cpca", "rc=%s cases=%d/%d %s" % (rc, len(outs), len(meta), err[-500:]))
